@@ -235,6 +235,7 @@ type backendCall struct {
 	At       int64 // virtual unix nanos at call time
 	DoneCh   <-chan struct{}
 	Gate     string
+	Kept     map[string]bool // for a partial-failure answer: the items named as undelivered
 }
 
 type backend struct {
